@@ -17,11 +17,10 @@ ENTRY_RX = [
     r'^libcnb::layer_env::LayerEnv::(write_to_layer_dir|read_from_layer_dir)$',
     r'^libcnb::runtime::libcnb_runtime(_detect|_build)?$',
     r'^libcnb_common::toml_file::(read|write)_toml_file$',
-    r'^libcnb::exec_d::write_exec_d_program_output$',
     r'^libcnb::util::remove_dir_recursively$',
     r'^libcnb::platform::read_platform_env$',
 ]
-ENTRY_MIN = 17
+ENTRY_MIN = 16
 
 # error types that belong to the property's subject (file system / TOML / layer handling)
 ERR_RX = re.compile(r'std::io::Error|TomlFileError|toml::ser::Error|toml::de::Error|libcnb::layer::|'
@@ -78,6 +77,45 @@ def check_program(prog, rep, slicer, tag=''):
     return fns
 
 
+BUFFERED = ('std::io::BufWriter', 'std::io::LineWriter')
+
+
+def check_buffered_writers(prog, rep, slicer, fns, tag=''):
+    """R3: a buffered writer swallows the error of its final flush when it is merely dropped; inside the
+    property's scope every BufWriter / LineWriter must be flushed (or unwrapped with into_inner) with the
+    Result propagated on every success path"""
+    from .lib.effects import success_sites
+    n = 0
+    for path in sorted(fns):
+        f = fns[path]
+        for c in f.calls:
+            if c.indirect or not c.name or not c.name.startswith(BUFFERED) or c.name.split('::')[-1] not in ('new', 'with_capacity'):
+                continue
+            n += 1
+            wv = slicer._call_value(f, c, set(), 0)
+            flushes = []
+            for c2 in f.calls:
+                if c2.indirect or not c2.args:
+                    continue
+                short = (c2.decl or '').split('::')[-1]
+                if short in ('flush', 'into_inner', 'into_parts') and slicer.operand(f, c2.args[0]) == wv:
+                    flushes.append(c2)
+            sites = [s.bb for s in success_sites(f)] or f.return_blocks()
+            ok = False
+            why = 'never flushed'
+            for c2 in flushes:
+                dom = all(f.dominates(c2.bb, s) for s in sites)
+                fate = verdict(result_fates(prog, f, c2))
+                if dom and fate in ('ok', 'panics'):
+                    ok = True
+                why = 'flush at %s dominates all success returns: %s, its result: %s' % (c2.where(), dom, fate)
+            subj = '%s/%s%s' % (f.path, 'LineWriter' if 'LineWriter' in c.name else 'BufWriter', tag)
+            rep.check(ok, 'R3', subj, c.where(), 'buffered writer flushed with its error propagated on every success path',
+                      'a buffered writer created in %s is dropped without a propagated flush (%s): a failing final write is silently discarded '
+                      'while the function returns Ok' % (f.path, why))
+    return n
+
+
 def check_not_found_helper(prog, rep, slicer):
     """R2: the best-effort helper turns exactly ErrorKind::NotFound into success"""
     f = prog.fn('libcnb::util::default_on_not_found')
@@ -131,5 +169,8 @@ def run(ctx, rep):
     rep.rule('R2', 'the best-effort delete helper tolerates exactly ErrorKind::NotFound')
     rep.not_decided = ['that the directory differs from a successful run after a failure (value level)',
                        'errors swallowed inside std (Path::exists/is_dir stat errors are outside the property\'s operation list)']
-    check_program(ctx.prog, rep, ctx.slicer)
+    rep.rule('R3', 'buffered writers in scope are flushed (or unwrapped) with the Result propagated before success is returned')
+    fns = check_program(ctx.prog, rep, ctx.slicer)
+    nb = check_buffered_writers(ctx.prog, rep, ctx.slicer, fns)
+    rep.extra['buffered_writers_in_scope'] = nb
     check_not_found_helper(ctx.prog, rep, ctx.slicer)
